@@ -20,7 +20,7 @@ func init() {
 	Register("C35", &Info{
 		Run:   runC35,
 		Quick: 7500, Thor: 1000000,
-		Rule: "a world = one server Config with a history of ticket operations: a real TLS 1.2 or 1.3 connection supplies genuine SessionState values (captured through Config.WrapSession), variants are derived by editing Extra/EarlyData; operations drawn per world: EncryptTicket/DecryptTicket round trip, single-bit flips at every region (IV, ciphertext, MAC), truncation/extension, explicit key sets and rotations through SetSessionTicketKeys (new key in front: old tickets still open; old key removed: no state), automatic key rotation under server clock jumps (1 h .. 30 d against the 7-day key lifetime), opening tickets with an Config.Clone() snapshots that must keep the key set they were taken with, independent AES-CTR + HMAC-SHA256 sealer keyed by TicketKeyFromBytes and sealing tickets independently for DecryptTicket, and finally a resumption through a forged ClientSessionState (drawn master secret patched into the state) that must resume with the supplied version/suite and equal exporters on both sides (and, when the supplied suite differs from the one sealed in the ticket, must not complete as a resumption under another suite); one world in six: a Config with the legacy SessionTicketKey field set, 1-3 tasks calling EncryptTicket concurrently with one SetSessionTicketKeys call under a scheduler that switches at every lock operation - afterwards the keys in force must be the installed ones; non-trivial = a ticket was decrypted or rejected after a mutation/rotation; distinct = (operation sequence, key history, clock jumps)",
+		Rule: "a world = one server Config with a history of ticket operations: a real TLS 1.2 or 1.3 connection supplies genuine SessionState values (captured through Config.WrapSession), variants are derived by editing Extra/EarlyData; operations drawn per world: EncryptTicket/DecryptTicket round trip, single-bit flips at every region (IV, ciphertext, MAC), truncation/extension, explicit key sets and rotations through SetSessionTicketKeys (new key in front: old tickets still open; old key removed: no state), automatic key rotation under server clock jumps (1 h .. 30 d against the 7-day key lifetime), opening tickets with an Config.Clone() snapshots that must keep the key set they were taken with, independent AES-CTR + HMAC-SHA256 sealer keyed by TicketKeyFromBytes and sealing tickets independently for DecryptTicket, and finally a resumption through a forged ClientSessionState (drawn master secret patched into the state) (with or without the server's certificates in it) that must resume with the supplied version/suite and equal exporters on both sides, followed by an ordinary connection over the same session cache (and, when the supplied suite differs from the one sealed in the ticket, must not complete as a resumption under another suite); one world in six: a Config with the legacy SessionTicketKey field set, 1-3 tasks calling EncryptTicket concurrently with one SetSessionTicketKeys call under a scheduler that switches at every lock operation - afterwards the keys in force must be the installed ones; non-trivial = a ticket was decrypted or rejected after a mutation/rotation; distinct = (operation sequence, key history, clock jumps)",
 		Assumptions: []string{"the independent sealer follows the documented ticket format (16-byte IV, AES-128-CTR, HMAC-SHA256 over IV and ciphertext) with keys from TicketKeyFromBytes",
 			"automatic rotation: no claim between 6 and 8 days"},
 		Real: []string{"utls server Config ticket code, client session injection (MakeClientSessionState, SetSessionState) from /repo"},
@@ -409,7 +409,15 @@ func runC35(c *Ctx) {
 						supplied = alt[ch.Pick(len(alt), "alt-suite")]
 					}
 				}
-				forged := tls.MakeClientSessionState(ticket, cs0.Version, supplied, master, []*x509.Certificate{leaf}, chain)
+				// a forged state need not carry the server's certificates (the caller knows a master secret,
+				// not necessarily the chain)
+				noCerts := ch.Bool(30, "forge-without-certificates")
+				var fcerts []*x509.Certificate
+				var fchains [][]*x509.Certificate
+				if !noCerts {
+					fcerts, fchains = []*x509.Certificate{leaf}, chain
+				}
+				forged := tls.MakeClientSessionState(ticket, cs0.Version, supplied, master, fcerts, fchains)
 				forged.SetEMS(true)
 				var cEKM []byte
 				// (HelloGolang ignores UConn.Extensions by documentation, so injected sessions do not apply to it)
@@ -424,8 +432,20 @@ func runC35(c *Ctx) {
 					st := u.ConnectionState()
 					cEKM, _ = st.ExportKeyingMaterial("EXPORTER-forged", nil, 32)
 				}
-				ops = append(ops, "forged-resumption/"+idi.Name)
+				ops = append(ops, fmt.Sprintf("forged-resumption/%s/certs=%v", idi.Name, !noCerts))
+				fcache := sp.CCfg.ClientSessionCache
 				fo := RunConn(c, w, sp)
+				// whatever the resumed connection left in the session cache, the next connection over the
+				// same cache must work (a full handshake or a resumption, never a panic or an error)
+				if fo.CDone && ch.Bool(60, "connection-after-forged") {
+					ncfg := &tls.Config{ServerName: "example.test", RootCAs: Roots(), ClientSessionCache: fcache, MaxVersion: tls.VersionTLS12, Time: now}
+					no := RunConn(c, w, &ConnSpec{Name: "after-forged", ID: idi.ID, CCfg: ncfg, Peer: PeerUTLS, SCfg: scfg, Payload: [][]byte{[]byte("next")}})
+					ops = append(ops, "connection-after-forged")
+					if c.R.Violation == nil && (!no.CDone || string(no.CRead) != "next") {
+						fail("connection-after-forged-session-failed", "%s client-panic=%v", no.Describe(), no.CPanic)
+					}
+					c.Probe("connection-after-forged-session")
+				}
 				if supplied != cs0.CipherSuite {
 					ops[len(ops)-1] += fmt.Sprintf("/supplied-suite=%04x-ticket-suite=%04x", supplied, cs0.CipherSuite)
 					c.Probe("forged-other-suite")
